@@ -76,7 +76,7 @@ STEREO = [
     '{[#A][#B]|3[#A]}.{#A=[$]C,#B=[$]C/C=C\\C[$]}',
     '{[#A][#B]}.{#A=[$]c1ccccc1,#B=[$]/C=C/c1ccccc1}',
     '{[#A][#B][#C]}.{#A=CC[$],#B=[$]/C=C(/C)[$],#C=[$]CO}',
-    '{[#A][#B]}.{#A=OC(=O)/C=C\\C[$],#B=[$]C(=O)O}',
+    '{[#A][#B]}.{#A=OC(=O)C/C=C\\C[$],#B=[$]C(=O)O}',
 ]
 WEIGHTS = ['0.5', '2', '3', '0.25', '1.5', '10', '0.1']
 NAMES = ['A', 'B', 'C', 'D', 'E', 'F', 'G', 'H', 'I', 'J']
@@ -90,7 +90,8 @@ def annotate_weights(text, rng, p=0.5, allow_zero=False):
     out = []
     i = 0
     n = len(text)
-    zero_used = False
+    # a zero weight only where another atom of the fragment keeps a positive one
+    zero_used = sum(1 for c in text if c.isupper() or c in 'cnos') < 2
     while i < n:
         ch = text[i]
         if ch == '[':
@@ -273,7 +274,7 @@ def cgsmiles_strings(seed, n_random, weights=False, pairs='some', stereo=True, m
         if pairs == 'all':
             yield from pair_strings(SITES2, SITES1 + SITES2)
         elif pairs == 'some':
-            yield from pair_strings(SITES2[:10], SITES1[:8] + SITES2[:10])
+            yield from pair_strings(SITES2[:8], SITES1[:6] + SITES2[:8])
         yield from homopolymers((3,) if pairs != 'all' else (3, 5))
     rng = random.Random(seed * 104729 + (17 if weights else 5))
     for i in range(n_random):
@@ -373,7 +374,7 @@ def relabel_pair(cg, aa, spec):
     cg2 = nx.Graph()
     for k in _ordered(cg.nodes, cmap, spec.get('order', 'same'), cspec['seed']):
         attrs = {a: copy.deepcopy(v) for a, v in cg.nodes[k].items() if a not in DROP_ATTRS}
-        sub, _ = relabel(cg.nodes[k]['graph'], spec, mapping={n: amap[n] for n in cg.nodes[k]['graph'].nodes})
+        sub, _ = relabel(cg.nodes[k]['graph'], spec, mapping=amap)
         attrs['graph'] = sub
         cg2.add_node(cmap[k], **attrs)
     for u, v, d in cg.edges(data=True):
